@@ -807,8 +807,14 @@ func (g *gen) genCmd(ti, ci, failPct int, lit map[string]string) cmdSpec {
 	src := "echo K" + mark + " >> $LOG"
 	k := cmdSpec{}
 	interpExtra := ""
-	shape := g.rng.Intn(11)
+	shape := g.rng.Intn(12)
 	switch shape {
+	case 11:
+		// a look around from inside the task: nothing has been dropped next to the cache directory or in the working
+		// directory while spok runs (a lock, a temporary file, a backup): the shell leaves a pattern that matches nothing as it is
+		probe := ".spok?* .*lock* *.lock *.tmp *~"
+		src += "; echo " + probe
+		k.out = probe + "\n"
 	case 9:
 		// text that looks like JSON escapes, HTML and format verbs: it must come back from the report byte for byte
 		txt := g.pick(`a\u0026b`, `x\u003cy\u003e`, `<b>&amp;</b>`, `100%d%s`, `q\"uote\\`, `tab\there`, "del\x7fete")
